@@ -260,6 +260,7 @@ func C08(run *mon.Run) {
 	c08PlainVSS(run)
 	dkgTorsionKernelVectors(run)
 	dkgRootPolynomials(run)
+	dkgInfinityThenJunk(run)
 	run.Require(run.Counter("must-disqualify") >= 30 && run.Counter("may-qualify") >= 30, "converse oracle saw too few Byzantine dealers in either class")
 	run.Require(run.Counter("plain-vss.must-fail") >= 100 && run.Counter("plain-vss.honest-ok") >= 4, "plain VSS grid too small")
 	for _, c := range []string{"cause.vector-missing-or-late", "cause.more-than-t-complaints", "cause.complaint-no-answer", "cause.complaint-wrong-answer"} {
